@@ -161,6 +161,7 @@ pub fn check(case: &Case, ctx: &mut CaseCtx) {
     let mut n_api_ok = 0u32;
     let mut n_packets = 0u32;
     let mut n_conflicts = 0u32;
+    let mut n_ctl2 = 0u32;
     let mut reg_ok = 0u32;
     let mut call = |what: String, f: &mut dyn FnMut(&mut SimDaemon) -> Result<(), String>, dm: &mut SimDaemon, caller_panic: &mut Option<(String, String)>| {
         dm.api(what.clone());
@@ -280,6 +281,21 @@ pub fn check(case: &Case, ctx: &mut CaseCtx) {
                 &mut caller_panic,
             ),
             Op::Conflict { host, probe } => {
+                // a further control registration with the same (possibly overflowing) label and a
+                // host label of the same kind is attacked while it is still probing
+                n_ctl2 += 1;
+                // (a prefix of 0, 1 or 2 bytes moves multi-byte characters across the place where a
+                // rename has to cut the label)
+                let mut label = format!("{}{}", ["", "7", "42", "", "8", "53"][n_ctl2 as usize % 6], case.ctl_label);
+                while label.len() > 63 {
+                    label.pop();
+                }
+                let host_label: String = label.chars().filter(|c| !matches!(c, ' ' | '(' | ')')).collect();
+                if let Ok(info) = ServiceInfo::new(CTL_TY, &label, &format!("{host_label}.local."), ctl_addr, 4001, &[("k", "v")][..]) {
+                    let _ = dm.register(info);
+                }
+                w.advance(if *probe { 20 } else { 300 });
+                let dm = &mut w.daemons[di];
                 let (inst, hostn) = ctl_names(dm);
                 let (Some(inst), Some(hostn)) = (inst, hostn) else { continue };
                 let src = src_for(&case.ifs, 0, false, 77);
@@ -396,7 +412,10 @@ pub fn check(case: &Case, ctx: &mut CaseCtx) {
     ctx.class_if(reg_ok > 0, "hostile-registration-accepted");
     ctx.class_if(n_packets > 0, "packets-delivered");
     ctx.class_if(n_conflicts > 0, "conflict-on-control-registration");
-    ctx.class_if(case.ctl_label.len() >= 60, "control-label-overflows-on-rename");
+    let renames = w.daemons[di].log.iter().filter(|e| matches!(&e.ev, Ev::Mon(mdns_sd::DaemonEvent::NameChange(_)))).count();
+    ctx.class_if(renames > 0, "renamed-after-conflict");
+    ctx.class_if(renames > 0 && case.ctl_label.len() >= 59, "renamed-a-label-that-overflows");
+    ctx.class_if(renames > 0 && case.ctl_label.len() >= 59 && !case.ctl_label.is_ascii(), "renamed-a-non-ascii-label-that-overflows");
     let errors = w.daemons[di].log.iter().filter(|e| matches!(&e.ev, Ev::Mon(mdns_sd::DaemonEvent::Error(_)))).count();
     ctx.class_if(errors > 0, "DaemonEvent::Error-reported");
     let found = w.daemons[di].log.iter().filter(|e| matches!(&e.ev, Ev::Svc { ev: ServiceEvent::ServiceFound(..), .. })).count();
@@ -689,6 +708,8 @@ pub fn run(tier: Tier) -> i32 {
     );
     agg.require_class("api-arguments:call-refused-with-error", 5_000);
     agg.require_class("api-arguments:hostile-registration-accepted", 2_000);
+    agg.require_class("api-arguments:renamed-a-label-that-overflows", 500);
+    agg.require_class("api-arguments:renamed-a-non-ascii-label-that-overflows", 200);
     agg.require_class("packets:packet-led-to-ServiceFound", 2_000);
     agg.require_class("packets:packet-led-to-ServiceResolved", 500);
     agg.finish()
